@@ -167,6 +167,11 @@ type cObs struct {
 	Runaway    bool
 }
 
+// seekBody is a body that can seek but is not one of the types http.NewRequest derives GetBody for.
+type seekBody struct{ *strings.Reader }
+
+func (seekBody) Close() error { return nil } // an io.ReadCloser, like *os.File: net/http keeps it as it is
+
 type noGetReader struct{ r io.Reader }
 
 func (n noGetReader) Read(p []byte) (int, error) { return n.r.Read(p) }
@@ -210,6 +215,11 @@ func runClient(t *testing.T, sc *cScript) (obs *cObs) {
 			body = bytes.NewReader([]byte(cBodyText))
 		case sc.Body == "closeonce":
 			body = &closeOnceBody{r: strings.NewReader(cBodyText)}
+		case sc.Body == "noget_seek":
+			// a seekable body without GetBody of which the application has already consumed a prefix
+			sb := seekBody{strings.NewReader(cBodyText)}
+			sb.Seek(8, io.SeekStart)
+			body = sb
 		case sc.Body == "noget" || strings.HasPrefix(sc.Body, "getfail:"):
 			body = noGetReader{strings.NewReader(cBodyText)}
 		}
@@ -529,7 +539,11 @@ func judgeClient(sc *cScript, obs *cObs, prop string) (out []jv) {
 	retry := 0
 	var lastErrKind string
 	var lastAttempt int
-	bodyHas := sc.Body == "bytes" || sc.Body == "closeonce" || sc.Body == "noget" || strings.HasPrefix(sc.Body, "getfail:")
+	bodyHas := sc.Body == "bytes" || sc.Body == "closeonce" || sc.Body == "noget" || sc.Body == "noget_seek" || strings.HasPrefix(sc.Body, "getfail:")
+	wantBody := cBodyText
+	if sc.Body == "noget_seek" {
+		wantBody = cBodyText[8:]
+	}
 	failJ := 0
 	if strings.HasPrefix(sc.Body, "getfail:") {
 		fmt.Sscanf(sc.Body, "getfail:%d", &failJ)
@@ -541,7 +555,7 @@ func judgeClient(sc *cScript, obs *cObs, prop string) (out []jv) {
 	for ; ; i++ {
 		// --- before attempt i: request reset (i>0)
 		if i > 0 {
-			if sc.Body == "noget" {
+			if sc.Body == "noget" || sc.Body == "noget_seek" {
 				result = "nogetbody"
 				break
 			}
@@ -568,8 +582,8 @@ func judgeClient(sc *cScript, obs *cObs, prop string) (out []jv) {
 			if got != want {
 				out = append(out, jvf([]string{"last_event_id_header_wrong"}, "attempt %d carried Last-Event-ID %q, want %q", i, got, want))
 			}
-			if bodyHas && (ao.Body != cBodyText || ao.BodyErr != "") {
-				out = append(out, jvf([]string{"request_body_not_fresh"}, "attempt %d saw request body %q (err %q), want the original %q", i, ao.Body, ao.BodyErr, cBodyText))
+			if bodyHas && (ao.Body != wantBody || ao.BodyErr != "") {
+				out = append(out, jvf([]string{"request_body_not_fresh"}, "attempt %d saw request body %q (err %q), want the original %q", i, ao.Body, ao.BodyErr, wantBody))
 			}
 			if !bodyHas && ao.Body != "" {
 				out = append(out, jvf([]string{"request_body_unexpected"}, "attempt %d saw a request body %q", i, ao.Body))
